@@ -20,7 +20,8 @@
     ensures
         // C14: never more than max(history-size, 1) change sets are retained
         final(self).bounded(),
-        // C14 + C13 (a change set is tagged with the current serial, which must identify the data): the new change set is the newest one, so the serial advanced by exactly one
+        // C14 + C13 + C16 (a change set is tagged with the current serial, which must identify the data; the HTTP ETag is session + this serial,
+        // so a changed data set must come with a changed serial): the new change set is the newest one, so the serial advanced by exactly one
         final(self).cur().0 == wadd(old(self).cur().0, 1),
         final(self).deltas@.len() >= 1 && *final(self).deltas@[0] == delta,
         // frame
